@@ -1344,6 +1344,17 @@ E2E_CORPUS = [
         "d": {"type": "object", "additionalProperties": {"type": "integer"}}}}, k,
        {"use_generic_container_types": True, "use_standard_collections": True, "use_unique_items_as_set": True}, None, "jsonschema",
        {"s": [1, 2], "l": ["x"], "d": {"k": 3}}) for k in e2e.MODEL_KINDS],
+    # former witness of C02-F12 (repaired: Parser.__collapse_root_models keeps a root model that is still the base class of the
+    # `class B(A): pass` that --reuse-model wrote for its duplicate): two named schemas with the same content under --reuse-model +
+    # --collapse-root-models must hold in every kind, with both / only the first / only the second of them used by a member, and with three
+    *[({"title": "Model", "type": "object", "properties": props,
+        "definitions": {n: {"type": "array", "items": {"type": "string"}} for n in names}}, k,
+       {"collapse_root_models": True, "reuse_model": True}, None, "jsonschema", {m: ([["x"], []] if m == "c" else ["x", "y"]) for m in props})
+      for k in e2e.MODEL_KINDS
+      for names, props in ((("A", "B"), {"a": {"$ref": "#/definitions/A"}, "b": {"$ref": "#/definitions/B"}}),
+                           (("A", "B"), {"a": {"$ref": "#/definitions/A"}}),
+                           (("A", "B"), {"b": {"$ref": "#/definitions/B"}}),
+                           (("A", "B", "C"), {"a": {"$ref": "#/definitions/A"}, "b": {"$ref": "#/definitions/B"}, "c": {"type": "array", "items": {"$ref": "#/definitions/C"}}}))],
 ]
 
 
